@@ -441,9 +441,154 @@ def check_composite(R):
         R.traces += 1
 
 
+# ------------------------------------------------------------------ (C) probabilistic sequences whose deterministic prefix writes sample keys
+def run_seqsubset_case(case):
+    """ProbabilisticTensorDictSequential(prefix..., final probabilistic module with sample keys K); the prefix writes the
+    parameters and a placeholder under every key of W (a subset of K).  The property's text: every sample key NOT produced
+    upstream is written by the sampling call the interaction type prescribes, from the distribution built from the
+    parameters the prefix computed; stored log-probs are the distribution's log-probs of the stored samples.
+    -> (fails, observed _requires_sample or None)"""
+    set_agg = _imports()[10]
+    with set_agg(False):
+        return _run_seqsubset_case(case)
+
+
+def _run_seqsubset_case(case):
+    D, TensorDict, PTM, PTS, TDM, TDS, IT, set_it, Comp, PR, set_agg = _imports()
+    K, W, it, rlp = list(case["keys"]), list(case["upstream"]), case["it"], case["return_log_prob"]
+    composite = case["composite"]
+    sig = {"check": "prob-seq-subset", "pattern": "none", "composite": composite, "subset": "empty" if not W else ("full" if len(W) == len(K) else "strict"),
+           "return_log_prob": rlp}
+    fails = []
+    x = torch.tensor([1, 2], dtype=torch.int64)
+    mult = {k: (i + 1, 100 * 10 ** i) for i, k in enumerate(K)}          # loc = x * m0, scale = x * m1
+    place = {k: x * 0 + 555 + i for i, k in enumerate(W)}
+    classes = {k: rec_class(k, has_rsample=(i % 2 == 0), has_det=True) for i, k in enumerate(K)}
+    if composite:
+        pk = [("params", k, nm) for k in K for nm in ("loc", "scale")]
+    else:
+        pk = ["loc", "scale"]
+
+    def params(x):
+        out = []
+        for k in K:
+            out += [x * mult[k][0], x * mult[k][1]]
+        return tuple(out)
+    try:
+        if case["split"]:
+            mods = [TDM(params, in_keys=["x"], out_keys=pk)]
+            if W:
+                mods.append(TDM(lambda x: tuple(place[k] for k in W) if len(W) > 1 else place[W[0]], in_keys=["x"], out_keys=list(W)))
+        else:
+            mods = [TDM(lambda x: params(x) + tuple(place[k] for k in W), in_keys=["x"], out_keys=pk + list(W))]
+        if composite:
+            pm = PTM(in_keys=["params"], out_keys=list(K), distribution_class=Comp,
+                     distribution_kwargs={"distribution_map": {k: classes[k] for k in K}}, return_log_prob=rlp,
+                     default_interaction_type="mode" if case["via_ctx"] else it)
+        else:
+            pm = PTM(in_keys=["loc", "scale"], out_keys=list(K), distribution_class=classes[K[0]], return_log_prob=rlp,
+                     default_interaction_type="mode" if case["via_ctx"] else it)
+        seq = PTS(*mods, pm)
+        req_attr = bool(seq._requires_sample)
+        adv_out = [str(k) for k in seq.out_keys]
+    except Exception as e:  # noqa: BLE001
+        return [("prob-seq-subset:constructor-raises", {"exception": type(e).__name__}, sig)], None
+    stale = {k: x * 0 + 1234 for k in K if k not in W and case["stale"]}
+    td = TensorDict(dict({"x": x, "other": x + 5}, **stale), [2])
+    other = td.get("other")
+    req = any(k not in W for k in K)
+    del LOG[:]
+    try:
+        with warnings.catch_warnings():
+            warnings.simplefilter("ignore")
+            if case["via_ctx"]:
+                with set_it(IT(it)):
+                    res = seq(td)
+            else:
+                res = seq(td)
+    except Exception as e:  # noqa: BLE001
+        if it == "median" and composite and req:
+            return [], req_attr          # CompositeDistribution has no median: NotImplementedError is the table's answer
+        pattern = "none"
+        if composite and not req and rlp and type(e).__name__ == "TypeError":
+            pattern = "composite-log-prob-of-upstream-samples"          # D148
+        return [("prob-seq-subset:forward-raises", {"exception": type(e).__name__}, dict(sig, pattern=pattern))], req_attr
+    consulted = {}
+    for (tag, name, payload) in LOG:
+        if name in CODE:
+            consulted.setdefault(tag, set()).add((name, payload))
+    for i, k in enumerate(K):
+        base = x * mult[k][0] + x * mult[k][1]
+        want_m = expected_method(it, i % 2 == 0, True)
+        got = res.get(k, None)
+        if k not in W:
+            calls = consulted.get(k, set())
+            names = {c[0] for c in calls}
+            ok_names = ({"rsample"}, {"sample"}) if it == "random" else ({want_m},)
+            if names not in ok_names or any(c[1] != () for c in calls):
+                fails.append(("prob-seq-subset:method-consulted", {"key": k, "calls": sorted((c[0], list(c[1])) for c in calls), "want": want_m}, sig))
+                continue
+            m = next(iter(names))
+            if got is None or not bool((got == base * 10 + CODE[m]).all()):
+                fails.append(("prob-seq-subset:sample-not-written", {"key": k, "have": None if got is None else got.tolist(),
+                                                                     "want": (base * 10 + CODE[m]).tolist()}, sig))
+        else:
+            allowed = [place[k]] + [base * 10 + c for c in CODE.values()]
+            if got is None or not any(bool((got == a).all()) for a in allowed):
+                fails.append(("prob-seq-subset:upstream-key-value", {"key": k, "have": None if got is None else got.tolist()}, sig))
+            if not req and consulted.get(k):
+                fails.append(("prob-seq-subset:sampled-although-all-keys-upstream", {"key": k}, sig))
+        if rlp and got is not None:
+            lpk = k + "_log_prob"
+            lp = res.get(lpk, None)
+            if lp is None or not bool((lp == got * 2 + 1).all()):
+                fails.append(("prob-seq-subset:log-prob", {"key": lpk, "present": lp is not None}, sig))
+            if lpk not in adv_out:
+                fails.append(("prob-seq-subset:log-prob-key-not-advertised", {"key": lpk, "out_keys": adv_out}, sig))
+    if res.get("other", None) is not other:
+        fails.append(("prob-seq-subset:footprint", {"key": "other"}, sig))
+    return fails, req_attr
+
+
+def check_seq_subsets(R, ok):
+    rng = R.rng
+    cases = []
+    for K in (["a", "b"], ["a", "b", "c"]):
+        for r in range(len(K) + 1):
+            for W in itertools.combinations(K, r):
+                for it in ITYPES:
+                    for rlp in (False, True):
+                        for via_ctx in (False, True):
+                            cases.append({"kind": "prob", "sub": "seqsubset", "composite": True, "keys": K, "upstream": list(W), "it": it,
+                                          "return_log_prob": rlp, "via_ctx": via_ctx, "split": rng.random() < 0.5, "stale": rng.random() < 0.6})
+    for W in ([], ["act"]):
+        for it in ITYPES:
+            for rlp in (False, True):
+                cases.append({"kind": "prob", "sub": "seqsubset", "composite": False, "keys": ["act"], "upstream": W, "it": it,
+                              "return_log_prob": rlp, "via_ctx": rng.random() < 0.5, "split": rng.random() < 0.5, "stale": rng.random() < 0.6})
+    lines, attrs = [], []
+    for case in cases:
+        R.case("seqsubset:" + json.dumps(case, sort_keys=True), nontrivial=True,
+               sample=case if (case["upstream"] and len(case["upstream"]) < len(case["keys"]) and rng.random() < 0.02) else None)
+        sub = "empty" if not case["upstream"] else ("full" if len(case["upstream"]) == len(case["keys"]) else "strict")
+        R.count("prob-seq-subset:" + sub)
+        fails, req_attr = run_seqsubset_case(case)
+        for (label, detail, sig) in fails:
+            R.oracle_fail(label, case, detail, sig)
+        R.traces += 1
+        if req_attr is not None:
+            lines.append(sx([Sym("requires-sample"), [Sym("some"), [[k] for k in case["keys"]]], [[k] for k in case["upstream"]] + [["x"]]]))
+            attrs.append((case, req_attr))
+    if ok and lines:
+        for (case, req_attr), m in zip(attrs, R.model(lines)):
+            if (m == "t") != req_attr:
+                R.mismatch("model-vs-code:_requires_sample", case, req_attr, m)
+
+
 def check(R, ok):
     check_table(R, ok)
     check_plumbing(R)
+    check_seq_subsets(R, ok)
 
 
 def replay(case):
@@ -453,6 +598,11 @@ def replay(case):
     print("probabilistic case:", json.dumps(case))
     if case.get("sub") == "module":
         print("oracle on the implementation:", run_module_case(case) or "(no failure)")
+    elif case.get("sub") == "seqsubset":
+        fails, req = run_seqsubset_case(case)
+        print("implementation: _requires_sample =", req)
+        print("property: some sample key is not produced upstream =", any(k not in case["upstream"] for k in case["keys"]))
+        print("oracle on the implementation:", fails or "(no failure)")
     elif case.get("sub") == "table":
         D, TensorDict, PTM, PTS, TDM, TDS, IT, set_it, Comp, PR, set_agg = _imports()
         cls = stub_class(case["lkj"], case["has_det"], case["support_real"], case["mode"], case["median"], case["mean"], case["has_rsample"])
